@@ -3,6 +3,7 @@ package pgdump
 import (
 	"encoding/json"
 	"fmt"
+	"sort"
 	"strings"
 )
 
@@ -112,6 +113,7 @@ func (q QueryResult) String() string {
 	for k := range q[0] {
 		cols = append(cols, k)
 	}
+	sort.Strings(cols) // Go map iteration order is random
 	for _, col := range cols {
 		b.WriteString(fmt.Sprintf("%-20s", truncate(col, 20)))
 	}
@@ -296,6 +298,8 @@ func (c *RemoteClient) Tables(dbOID uint32) []TableInfo {
 	for _, t := range c.cache.tables[dbOID] {
 		tables = append(tables, t)
 	}
+	// Go map iteration order is random: list the relations in filenode order
+	sort.Slice(tables, func(i, j int) bool { return tables[i].Filenode < tables[j].Filenode })
 	return tables
 }
 
@@ -307,8 +311,7 @@ func (c *RemoteClient) TablesByName(dbName string) []TableInfo {
 }
 
 func (c *RemoteClient) Table(dbOID uint32, tableName string) *TableInfo {
-	c.loadCatalog(dbOID)
-	for _, t := range c.cache.tables[dbOID] {
+	for _, t := range c.Tables(dbOID) {
 		if strings.EqualFold(t.Name, tableName) {
 			return &t
 		}
@@ -530,6 +533,7 @@ func formatDump(dump *DatabaseDump) string {
 		for k := range t.Rows[0] {
 			cols = append(cols, k)
 		}
+		sort.Strings(cols) // Go map iteration order is random
 		for _, col := range cols {
 			b.WriteString(fmt.Sprintf("%-20s", truncate(col, 20)))
 		}
